@@ -641,9 +641,44 @@ fn gen_matrix_value(t: &mut Tape) -> Value {
     }
 }
 
+/// Value lines that differ from `val` at most in white space.
+fn ws_variant(t: &mut Tape, val: &str) -> Vec<String> {
+    let mut lines: Vec<String> = val.split('\n').map(|l| l.to_string()).collect();
+    let with_blank: Vec<usize> = (0..lines.len()).filter(|&i| lines[i].trim_matches(' ').contains(' ')).collect();
+    match t.below(3) {
+        0 if !with_blank.is_empty() => {
+            let i = with_blank[t.below(with_blank.len())];
+            let at = lines[i].trim_end_matches(' ').rfind(' ').unwrap();
+            lines[i].insert(at, ' ');
+        }
+        1 if !with_blank.is_empty() => {
+            let i = with_blank[t.below(with_blank.len())];
+            let at = lines[i].trim_end_matches(' ').rfind(' ').unwrap();
+            let rest = lines[i][at + 1..].to_string();
+            if !rest.is_empty() && !rest.starts_with('#') && !lines[i][..at].trim_matches(' ').is_empty() {
+                lines[i].truncate(at);
+                lines.insert(i + 1, rest);
+            }
+        }
+        2 if lines.len() >= 2 && !lines[0].is_empty() => {
+            let second = lines.remove(1);
+            lines[0] = format!("{} {}", lines[0], second);
+        }
+        _ => {}
+    }
+    // keep the prior inside the document domain
+    for i in 1..lines.len() {
+        if lines[i].is_empty() || lines[i].starts_with('#') {
+            return vec!["stale".to_string()];
+        }
+    }
+    lines
+}
+
 fn gen_prior(t: &mut Tape, v: &Value) -> Prior {
     let mut fields: Vec<(String, Vec<String>, String, Option<String>)> = vec![];
     let own = all_keys(v);
+    let exp = expected_fields(v);
     let mut n_foreign = 0;
     while t.more(fields.len(), 0, 6, 3, 4) {
         let comment = if t.chance(1, 4) { Some(format!("# comment {}", fields.len())) } else { None };
@@ -666,7 +701,13 @@ fn gen_prior(t: &mut Tape, v: &Value) -> Prior {
         } else {
             let k = t.pick(&own).to_string();
             if fields.iter().all(|f| f.0 != k) {
-                fields.push((k, vec!["stale".to_string()], ws, comment));
+                // the stale value is unrelated, or differs from the value about to be written only in white space
+                // (doubled blank, a blank turned into a line break, two lines joined), or is that very value
+                let lines = match exp.iter().find(|(n, _)| *n == k) {
+                    Some((_, val)) if t.flag() => ws_variant(t, val),
+                    _ => vec!["stale".to_string()],
+                };
+                fields.push((k, lines, ws, comment));
             }
         }
     }
@@ -705,8 +746,11 @@ impl PropImpl for C16 {
     fn assumptions(&self) -> Vec<String> {
         vec!["the 'programs' quantifier is covered by a fixed, shape-complete matrix of compiled structs plus all shipped structs (a proc-macro needs a compile per definition)".into()]
     }
+    fn expected_labels(&self) -> Vec<&'static str> {
+        vec!["error:missing-mandatory", "error:unparsable-value", "matrix:S1-default-codecs", "matrix:S2-both-custom-codecs", "matrix:S3-one-sided-codecs", "shipped:Buildinfo", "shipped:Removal", "shipped:apt::Package", "shipped:apt::Release", "shipped:apt::Source", "shipped:apt_sources::Repository", "shipped:control::Binary", "shipped:control::Source", "shipped:copyright::FilesParagraph", "shipped:copyright::Header", "shipped:copyright::LicenseParagraph", "shipped:dep3::PatchHeader", "update:prior-has-case-variant-of-own-field", "update:prior-has-comments", "update:prior-has-foreign-fields", "update:prior-has-stale-own-fields", "update:stale-value-differs-only-in-white-space", "update:stale-value-equals-new-value"]
+    }
     fn budget(&self, tier: Tier) -> Budget {
-        Budget { cases_per_lane: if tier == Tier::Quick { 10000 } else { 60_000 }, tape_max: 500, cpu_s: 10 }
+        Budget { cases_per_lane: if tier == Tier::Quick { 30000 } else { 120000 }, tape_max: 500, cpu_s: 10 }
     }
     fn spaces(&self, _tier: Tier) -> Vec<Space> {
         vec![]
@@ -763,6 +807,12 @@ impl PropImpl for C16 {
                 ctx.label_if(prior.fields.iter().any(|f| f.3.is_some()), "update:prior-has-comments");
                 ctx.label_if(prior.fields.iter().any(|f| !all_keys(v).contains(&f.0.as_str()) && all_keys(v).iter().any(|k| k.eq_ignore_ascii_case(&f.0))), "update:prior-has-case-variant-of-own-field");
                 ctx.label_if(prior.fields.iter().any(|f| all_keys(v).contains(&f.0.as_str())), "update:prior-has-stale-own-fields");
+                {
+                    let exp = expected_fields(v);
+                    let squash = |s: &str| s.split_whitespace().collect::<Vec<_>>().join(" ");
+                    ctx.label_if(prior.fields.iter().any(|f| exp.iter().any(|(n, val)| *n == f.0 && f.1.join("\n") != *val && squash(&f.1.join("\n")) == squash(val))), "update:stale-value-differs-only-in-white-space");
+                    ctx.label_if(prior.fields.iter().any(|f| exp.iter().any(|(n, val)| *n == f.0 && f.1.join("\n") == *val)), "update:stale-value-equals-new-value");
+                }
                 match broken {
                     Some((_, None)) => ctx.label("error:missing-mandatory"),
                     Some((_, Some(_))) => ctx.label("error:unparsable-value"),
